@@ -68,13 +68,14 @@ theorem pull_lift {it : Val} {σ σ' : St} {v : Option Val} {f : Nat} (g : Nat)
   have := (((monoAt_le f g hle).pull it).apply σ).eq_of_not_fuel (by intro σ1 h1; rw [h] at h1; cases h1)
   rw [this, h]
 
-/-- one pull of `it @ g` when the source yields `x`: ONE call of the source, then ONE call of the mapper on `x`,
-    in that order (the store threads σ → σ1 → σ2), and the pull yields the mapper's result -/
-theorem map_pull_some (f id : Nat) (r : Ty) (it g dflt x y : Val) (σ σ1 σ2 : St)
+/-- one call of `it @ g` when the source yields `x`: ONE call of the source, then ONE call of the mapper on `x`,
+    in that order (the store threads σ → σ1 → σ2); the call returns `(true, g(x))`.  Stated for the CALL (not only
+    the pull) so that the mapped iterator can itself be the source of the next operator of a chain -/
+theorem map_call_some (f id : Nat) (r : Ty) (it g dflt x y : Val) (σ σ1 σ2 : St)
     (hs : callFn f it [] σ = (.ok (.tup [.bool true, x]), σ1))
     (hg : callFn f g [x] σ1 = (.ok y, σ2)) :
-    pull (f + 20) (mapped id r it g dflt) σ = (.ok (some y), σ2) := by
-  simp only [pull, callFn_mapped, bind_def]
+    callFn (f + 19) (mapped id r it g dflt) [] σ = (.ok (.tup [.bool true, y]), σ2) := by
+  simp only [callFn_mapped, bind_def]
   simp only [mapBody, bind_def, evalSeq, evalStmt, evalStmtValue, eval_var, eval_call, evalList, tryCatchS]
   have h1 := callFn_lift (f + 14) hs (by omega)
   simp only [pure_def, Env.insert]
@@ -85,11 +86,11 @@ theorem map_pull_some (f id : Nat) (r : Ty) (it g dflt x y : Val) (σ σ1 σ2 : 
   simp only [h1]
   simp [Env.lookup, frameLookup, pure_def, liftE, preScalar, asBool, throwS, retHandler, h2]
 
-/-- one pull of `it @ g` when the source is exhausted: ONE call of the source, NO call of the mapper -/
-theorem map_pull_none (f id : Nat) (r : Ty) (it g dflt : Val) (rest : List Val) (σ σ1 : St)
+/-- one call of `it @ g` when the source is exhausted: ONE call of the source, NO call of the mapper -/
+theorem map_call_none (f id : Nat) (r : Ty) (it g dflt : Val) (rest : List Val) (σ σ1 : St)
     (hs : callFn f it [] σ = (.ok (.tup (.bool false :: rest)), σ1)) :
-    pull (f + 20) (mapped id r it g dflt) σ = (.ok none, σ1) := by
-  simp only [pull, callFn_mapped, bind_def]
+    callFn (f + 19) (mapped id r it g dflt) [] σ = (.ok (.tup [.bool false, dflt]), σ1) := by
+  simp only [callFn_mapped, bind_def]
   simp only [mapBody, bind_def, evalSeq, evalStmt, evalStmtValue, eval_var, eval_call, evalList, tryCatchS]
   have h1 := callFn_lift (f + 14) hs (by omega)
   simp only [pure_def, Env.insert]
@@ -99,6 +100,17 @@ theorem map_pull_none (f id : Nat) (r : Ty) (it g dflt : Val) (rest : List Val) 
   simp only [h1]
   cases rest <;>
   simp [Env.lookup, frameLookup, pure_def, bind_def, liftE, preScalar, asBool, throwS, retHandler]
+
+theorem map_pull_some (f id : Nat) (r : Ty) (it g dflt x y : Val) (σ σ1 σ2 : St)
+    (hs : callFn f it [] σ = (.ok (.tup [.bool true, x]), σ1))
+    (hg : callFn f g [x] σ1 = (.ok y, σ2)) :
+    pull (f + 20) (mapped id r it g dflt) σ = (.ok (some y), σ2) := by
+  simp only [pull, bind_def, map_call_some f id r it g dflt x y σ σ1 σ2 hs hg]; rfl
+
+theorem map_pull_none (f id : Nat) (r : Ty) (it g dflt : Val) (rest : List Val) (σ σ1 : St)
+    (hs : callFn f it [] σ = (.ok (.tup (.bool false :: rest)), σ1)) :
+    pull (f + 20) (mapped id r it g dflt) σ = (.ok none, σ1) := by
+  simp only [pull, bind_def, map_call_none f id r it g dflt rest σ σ1 hs]; rfl
 
 /-- the run of a mapped iterator, element by element: the source is called, and only if it yielded an element
     the mapper is called on it, before the source is called again; `ys` are the mapper's results in order -/
@@ -235,17 +247,26 @@ def pullResult : Val → Option (Option Val)
   | .tup (.bool false :: _) => some none
   | _ => none
 
-theorem filter_pull (id : Nat) (r : Ty) (it p : Val) (f : Nat) (σ σ' : St) (t : Val) (n : Nat)
-    (h : FilterLoop it p f σ t σ' n) (o : Option Val) (ho : pullResult t = some o) :
-    pull (f + 26 + n) (filtered id r it p) σ = (.ok o, σ') := by
+/-- one CALL of `it ? p` returns the source's last tuple (composable: the filtered iterator as a source) -/
+theorem filter_call (id : Nat) (r : Ty) (it p : Val) (f : Nat) (σ σ' : St) (t : Val) (n : Nat)
+    (h : FilterLoop it p f σ t σ' n) :
+    callFn (f + 25 + n) (filtered id r it p) [] σ = (.ok t, σ') := by
   have hl := filter_loop it p f σ σ' t n h
-  have e1 : f + 26 + n = (f + 21 + n) + 5 := by omega
+  have e1 : f + 25 + n = (f + 21 + n) + 4 := by omega
   rw [e1]
-  simp only [pull, filtered, callFn, filterBody, calleeEnv, bind_def, tryCatchS, evalSeq, evalStmt, eval_loop]
+  simp only [filtered, callFn, filterBody, calleeEnv, bind_def, tryCatchS, evalSeq, evalStmt, eval_loop]
   have hl' : loopGo (f + 21 + n) [[] ++ [], [("func", it), ("predicate", p)]] fbody σ = (.error (.ret t), σ') := hl
   simp only [fbody] at hl'
   simp only [List.map, List.zip, List.zipWith, List.reverse_nil, hl']
-  rcases h.shape with ⟨rest, rfl⟩ | ⟨x, rfl⟩ <;> simp [pullResult] at ho <;> subst ho <;> simp [pure_def]
+  rfl
+
+theorem filter_pull (id : Nat) (r : Ty) (it p : Val) (f : Nat) (σ σ' : St) (t : Val) (n : Nat)
+    (h : FilterLoop it p f σ t σ' n) (o : Option Val) (ho : pullResult t = some o) :
+    pull (f + 26 + n) (filtered id r it p) σ = (.ok o, σ') := by
+  have e1 : f + 26 + n = (f + 25 + n) + 1 := by omega
+  rw [e1]
+  simp only [pull, bind_def, filter_call id r it p f σ σ' t n h]
+  rcases h.shape with ⟨rest, rfl⟩ | ⟨x, rfl⟩ <;> simp [pullResult] at ho <;> subst ho <;> rfl
 
 /-- the run of a filtered iterator until exhaustion: `xs` are the elements that reached the consumer, each
     preceded by at most `N` rejected ones -/
@@ -426,18 +447,26 @@ theorem tfilter_loop (it dflt : Val) (t : Ty) (f : Nat) (σ σ' : St) (o : Optio
     simp only [loopGo, bind_def, hb]
     simpa using ih
 
-theorem tfilter_pull (id : Nat) (it dflt : Val) (t : Ty) (f : Nat) (σ σ' : St) (o : Option Val) (n : Nat)
+theorem tfilter_call (id : Nat) (it dflt : Val) (t : Ty) (f : Nat) (σ σ' : St) (o : Option Val) (n : Nat)
     (h : TFLoop it t f σ o σ' n) :
-    pull (f + 26 + n) (typeFiltered id t it dflt) σ = (.ok o, σ') := by
+    callFn (f + 25 + n) (typeFiltered id t it dflt) [] σ = (.ok (tfTuple dflt o), σ') := by
   have hl := tfilter_loop it dflt t f σ σ' o n h
-  have e1 : f + 26 + n = (f + 21 + n) + 5 := by omega
+  have e1 : f + 25 + n = (f + 21 + n) + 4 := by omega
   rw [e1]
-  simp only [pull, typeFiltered, callFn, typeFilterBody, calleeEnv, bind_def, tryCatchS, evalSeq, evalStmt, eval_loop]
+  simp only [typeFiltered, callFn, typeFilterBody, calleeEnv, bind_def, tryCatchS, evalSeq, evalStmt, eval_loop]
   have hl' : loopGo (f + 21 + n) [[] ++ [], [("iterator", it), ("default", dflt)]] (tfbody t) σ =
       (.error (.ret (tfTuple dflt o)), σ') := hl
   simp only [tfbody] at hl'
   simp only [List.map, List.zip, List.zipWith, List.reverse_nil, hl']
-  cases o <;> simp [tfTuple, pure_def]
+  rfl
+
+theorem tfilter_pull (id : Nat) (it dflt : Val) (t : Ty) (f : Nat) (σ σ' : St) (o : Option Val) (n : Nat)
+    (h : TFLoop it t f σ o σ' n) :
+    pull (f + 26 + n) (typeFiltered id t it dflt) σ = (.ok o, σ') := by
+  have e1 : f + 26 + n = (f + 25 + n) + 1 := by omega
+  rw [e1]
+  simp only [pull, bind_def, tfilter_call id it dflt t f σ σ' o n h]
+  cases o <;> rfl
 
 /-- the run of `it ? T` until exhaustion -/
 inductive TFRun (it : Val) (t : Ty) (f N : Nat) : St → List Val → St → Prop where
@@ -468,5 +497,23 @@ theorem TFLoop.matches {it : Val} {t : Ty} {f : Nat} {σ σ' : St} {x : Val} {n 
   | done _ => cases ho
   | keep _ ht => cases ho; exact ht
   | skip _ _ _ ih => exact ih ho
+
+/-! ## chains: the conclusions above are call results, i.e. the hypotheses of the next operator -/
+
+/-- `(it @ g) ? p`, an element that passes: source, mapper, predicate - each once, in that order - and the pull yields
+    the MAPPED element -/
+theorem filter_of_map_keep (f id id2 : Nat) (r r2 : Ty) (it g dflt p x y : Val) (σ σ1 σ2 σ3 : St)
+    (hs : callFn f it [] σ = (.ok (.tup [.bool true, x]), σ1))
+    (hg : callFn f g [x] σ1 = (.ok y, σ2))
+    (hp : callFn (f + 19) p [y] σ2 = (.ok (.bool true), σ3)) :
+    pull (f + 19 + 26 + 0) (filtered id2 r2 (mapped id r it g dflt) p) σ = (.ok (some y), σ3) :=
+  filter_pull id2 r2 _ p (f + 19) σ σ3 _ 0 (.keep (map_call_some f id r it g dflt x y σ σ1 σ2 hs hg) hp) (some y) rfl
+
+/-- `(it ? p) @ g`, after `n` rejected elements: the mapper is called ONCE, on the accepted element only -/
+theorem map_of_filter_some (f id id2 : Nat) (r r2 : Ty) (it p g dflt x y : Val) (n : Nat) (σ σ1 σ2 : St)
+    (hl : FilterLoop it p f σ (.tup [.bool true, x]) σ1 n)
+    (hg : callFn (f + 25 + n) g [x] σ1 = (.ok y, σ2)) :
+    pull (f + 25 + n + 20) (mapped id2 r2 (filtered id r it p) g dflt) σ = (.ok (some y), σ2) :=
+  map_pull_some (f + 25 + n) id2 r2 _ g dflt x y σ σ1 σ2 (filter_call id r it p f σ σ1 _ n hl) hg
 
 end Ssl.C11
